@@ -444,7 +444,7 @@ def run_matcher(ctx):
     extra_p = [['*VLAN with the same name exists*'], ['x', '*a'], ['a*', 'b'], ['*a*', '*'], ['€*'], ['*\t'], ['a\x1f*'], ['***'], ['*a*a']]
     extra_m = ['xx vlan WITH THE SAME NAME exists', 'a', 'ba', 'ab', '€1', 'a\t', '\x1fa\x1f', '\x0ba\x0c', '*', 'a*a', 'aa', None, 'no error given']
     cases += [(p, m) for p in extra_p for m in extra_m]
-    n = 3000 if ctx.tier == 'quick' else 40000
+    n = 3000 if ctx.tier == "quick" else 150000
     for _ in range(n):
         ps = [''.join(ctx.rng.choice('aAbB* \t') for _ in range(ctx.rng.randrange(0, 5))) for _ in range(ctx.rng.randrange(0, 4))]
         m = ctx.rng.choice([None] + [''.join(ctx.rng.choice('aAbB* \n') for _ in range(ctx.rng.randrange(0, 7)))])
@@ -500,7 +500,7 @@ def all_cases(ctx):
     profiles = profile_names()
     blocks = [('corpus', corpus_cases()), ('f6', gen_f6()), ('exhaustive', gen_exhaustive()),
               ('fields', gen_fields(ctx.rng, thorough)), ('profiles', gen_profiles(profiles)),
-              ('random', gen_random(ctx.rng, 25000 if thorough else 2500, profiles))]
+              ('random', gen_random(ctx.rng, 100000 if thorough else 2500, profiles))]
     return blocks
 
 def run(ctx):
